@@ -1203,9 +1203,10 @@ func serEntryOK(T []uint64, off int, ntype Tag, vb []byte) bool {
 }
 
 //@ func (*Serializer).Serialize variant values
-//@   props C11 C17
+//@   props C11 C17 C14
 //@   opt safety off
 //@   requires len(pj.Tape) < 1<<40 && pj.Strings != nil
+//@   invariant 1 tagbuf: 0 <= tagsOff && tagsOff <= tagBufSize && 0 <= off
 //@   assertat `s.tagsBuf[tagsOff] = uint8(ntype)` entry: serEntryOK(pj.Tape, off, ntype, s.valuesBuf)
 
 // Serialized tape format (documented in Serialize): per tag the number of value bytes in the values stream and the
